@@ -351,7 +351,7 @@ TABLE['C14'] = dict(
     ])
 
 TABLE['C15'] = dict(
-    imports=[A + 'Corollaries', A + 'RoutesThm', A + 'Conservation', A + 'MomentsThm', A + 'RewardsThm', A + 'SampleConsistency', A + 'ApiThm'],
+    imports=[A + 'Corollaries', A + 'RoutesThm', A + 'Conservation', A + 'MomentsThm', A + 'RewardsThm', A + 'SampleConsistency', A + 'ApiThm', A + 'MemoThm'],
     summary='Proved: centring = binomial / inclusion-exclusion combination of raw moments = central moment of any linear expectation '
             '(all k), explicit k = 2, 3; permutation averaging makes cross moments symmetric (all permutations); additivity in each '
             'reward slot; unit reward neutral in products; covariance assembly symmetric. Routes: cached properties, dist.moment and '
@@ -375,6 +375,10 @@ TABLE['C15'] = dict(
         ('call_layer_exact', 'PG.Api.accumulateCall_eq', 'CALL LAYER: accumulate(k, times, rewards, center, permute) either raises (exactly when the mirrored checks fire) or returns accumulateModel at each time on the first k rewards'),
         ('call_routes_agree', 'PG.Api.api_routes_agree', 'moment / accumulate / object-level end time are the same number'),
         ('call_none_is_default', 'PG.Api.api_none_is_default', 'rewards=None means [self.reward]*k; None times mean the defaults'),
+        ('memo_tuples_separate', 'PG.Memo.memo_reward_tuples_separate', 'two different reward tuples asked one after the other on the same object each get their own value'),
+        ('memo_keys_exact', 'PG.Memo.memo_keyEq_iff', 'memo-key comparison = equality of rewards (nested composites included)'),
+        ('memo_frozenset_defect', 'PG.Memo.frozensetComposite_collides', 'kernel-checked: a composite hash built from frozenset(children) makes Sum[A,A,B] collide with Sum[A,B]'),
+        ('memo_base_class_hash_defect', 'PG.Memo.baseClassHash_collides', 'kernel-checked: hashing the defining class name makes composites differing in a stateless member collide (bare atoms still do not)'),
     ])
 
 TABLE['C16'] = dict(
@@ -407,7 +411,7 @@ TABLE['C16'] = dict(
     ])
 
 TABLE['C17'] = dict(
-    imports=[A + 'CacheThm', A + 'Glue', A + 'MomentsThm'],
+    imports=[A + 'CacheThm', A + 'Glue', A + 'MomentsThm', A + 'MemoThm'],
     summary='Proved on the state-machine model of StateSpace caching (epoch, S, per-epoch cache, drop_S, drop_cache, first access of '
             'states): for EVERY history of operations every read of S returns the matrix of the epoch in force, with caching on or off; '
             'the number of recomputations is bounded; the repaired consumer (update_epoch before reading) is correct and the pre-fix '
@@ -423,6 +427,14 @@ TABLE['C17'] = dict(
         ('repaired_consumer', 'PG.Cache.repaired_consumer', 'update_epoch then read: always the consumer\'s own epoch'),
         ('stale_read_defect', 'PG.Cache.stale_read_defect', 'pre-fix get_mutation_config on a shared state space read the other parameter set\'s matrix'),
         ('queries_are_pure', 'PG.code_accumulate_pointwise', 'given the right matrices a query is a pure function of its arguments'),
+        ('memo_refinement', 'PG.Memo.memo_refinement', 'DISTRIBUTION-LEVEL MEMO: with functools.cache on moment / _accumulate / _get_P and the cached_property slots mean, var, cov, corr, the answers to EVERY history of queries are those of the memo-free evaluator'),
+        ('memo_order_irrelevant', 'PG.Memo.memo_order_irrelevant', 'the answer to a query does not depend on the history before it'),
+        ('memo_fresh_equiv', 'PG.Memo.memo_fresh_equiv', 'same answer as a fresh object'),
+        ('memo_forgetting', 'PG.Memo.memo_refinement_forgetting', 'the Coalescent.moment route (a new lower object per call) likewise'),
+        ('memo_keys', 'PG.Memo.memo_keyEq_iff', 'the key comparison functools.cache performs (same class and equal hash, hash read as the structural key) identifies exactly equal rewards'),
+        ('memo_corr_in_place_defect', 'PG.Memo.corr_inPlace_poisons_cov', 'kernel-checked: corr computed in place on the cached cov array makes a later cov read return correlations'),
+        ('memo_getP_theta_defect', 'PG.Memo.getP_forgets_theta', 'kernel-checked: a _get_P memo keyed without theta'),
+        ('memo_in_place_sum_defect', 'PG.Memo.inPlaceSum_poisons_memo', 'kernel-checked: in-place += on an array returned from a memoised call'),
     ])
 
 TABLE['C18'] = dict(
